@@ -21,7 +21,14 @@ def ints(maxv):
 u8, u16, u32 = ints(0xFF), ints(0xFFFF), ints(0xFFFFFFFF)
 
 ae_title = st.text(AE_CHARS, min_size=0, max_size=16)
-uid = st.one_of(st.text(UID_CHARS, min_size=0, max_size=64),
+# well-known UIDs, and values that are textual extensions / truncations of them (a prefix test is not an equality test)
+WELL_KNOWN = ['1.2.840.10008.3.1.1.1', '1.2.840.10008.1.1', '1.2.840.10008.1.2', '1.2.840.10008.1.2.1', '1.2.840.10008.1.2.2',
+              '1.2.840.10008.5.1.4.1.1.2', '1.2.840.10008.1.20.1', '1.2.840.10008.1.20.1.1']
+_NEAR = [w + x for w in WELL_KNOWN for x in ('', '0', '.1', '.1.2')] + [w[:-1] for w in WELL_KNOWN] + [w[:-2] for w in WELL_KNOWN]
+_plain_uid = st.text(UID_CHARS, min_size=0, max_size=63)
+uid = st.one_of(st.text(UID_CHARS, min_size=0, max_size=64), st.sampled_from(_NEAR),
+                # a UID padded with one trailing NUL, as data-set encoders do and some peers also do here
+                _plain_uid.map(lambda u: u + '\x00'), st.sampled_from(WELL_KNOWN).map(lambda u: u + '\x00'),
                 st.sampled_from(['1.2.840.10008.1.1', '1.2.840.10008.1.2', '1' * 64, '', '1',
                                  '1.2.840.10008.5.1.4.1.1.2']))
 ascii_name = st.text(string.ascii_letters + string.digits + ' _.-', min_size=0, max_size=16)
